@@ -559,6 +559,13 @@ func (c *Compiler) applyUsesToNode(mod, nod, use parse.Node, parentStatus schema
 
 	refinedNodes := []parse.Node{}
 	for _, kid := range group.Children() {
+		switch kid.Type() {
+		case parse.NodeDescription, parse.NodeReference, parse.NodeStatus:
+			// These describe the grouping itself.  They are not part of
+			// what the grouping defines and must not end up on the node
+			// that contains the 'uses'.
+			continue
+		}
 		newKid := kid.Clone(kidmod)
 		inheritCommonProperties(use, newKid, false)
 
